@@ -38,6 +38,15 @@ CHECKS = {
  "C15": ("exploration", "bounded-exhaustive enumeration of reader call histories against an explicit reference state machine",
          "All sequences (up to the stated length) of iterate-j / read_nth / seek / shape_count on ShapeReader with index, of iterate / seek / count on the complete Reader (rows carry their index), and of iterations on an index-less reader are compared with a ~40-line reference model. Complete within the bound.",
          "Trusted: the reference model; a read_nth returning None is modelled as not moving the reader.", "DESIGN.md §3 C15"),
+ "C11": ("fault_enumeration", "fault enumeration: every crash point (op prefix x byte cut) of generated workloads, replayed into persisted images and read back",
+         "For generated workloads every crash state of the .shp is enumerated and crossed with (sampled or all) crash states of the .shx; readers on the persisted images must fail or yield a bit-exact prefix of what was written, and completed finalizes must stay readable.",
+         "Crash model = prefixes of the Write/Seek/flush calls on the destination incl. byte cuts; OS-level reordering and BufWriter buffering are outside the model.", "DESIGN.md §3 C11"),
+ "C12": ("fault_enumeration", "fault enumeration: every k-th destination operation fails (one-shot and persistent), plus short-write schedules",
+         "For generated workloads each write/seek/flush on each destination is failed in turn; the API call in progress must return the marked I/O error, a failed finalize must be retryable to byte-identical files, drop must not panic; short-write schedules must give identical bytes.",
+         "Fault model = errors returned by the destination's Write/Seek methods.", "DESIGN.md §3 C12"),
+ "C13": ("fault_enumeration", "fault enumeration: every truncation length, every k-th source operation failing, short-read schedules",
+         "For generated valid files (reference encoder) every truncation of .shp and .shx, every failing read/seek of a full traversal and several short-read schedules are run against a model derived from the independent encoder's record offsets.",
+         "Fault model = errors / short counts returned by the source's Read/Seek methods.", "DESIGN.md §3 C13"),
  "C01": ("exploration", "property-based testing (proptest, seeded, shrinking): write->read round trip with an explicit normalisation model",
          "Generated shape sequences of all 13 types are written through ShapeWriter and read back through every route (generic/typed x iterate/collect/random access x with/without .shx x memory/disk); an oracle built from accessor views as f64 bit patterns decides equality. Bounded random exploration, not proof.",
          "Trusted: proptest generators, the accessor view of constructed values; ring roles asserted only where the signed area is exactly computable and non-zero.", "DESIGN.md §3 C01"),
